@@ -8,13 +8,13 @@
 #include <stdlib.h>
 #include <string.h>
 
-#define MAXN 200
+#define MAXN 400
 typedef struct
 {
 	char kind; /* o a l */
 	int nk;
-	const char *keys[24];
-	int kids[24]; /* ids, 0 = null */
+	const char *keys[128];
+	int kids[128]; /* ids, 0 = null */
 } spec_t;
 static spec_t S[MAXN + 1];
 static int nspec;
@@ -129,10 +129,16 @@ static void emit_tree(void)
 }
 static const char *errname(int e) { return e == ENOENT ? "ENOENT" : e == EINVAL ? "EINVAL" : e == 0 ? "0" : "other"; }
 
+/* errno as some earlier library call (a saturating number conversion, a failed allocation) may have left it */
+static int ambient_errno(void)
+{
+	static const int vals[] = {0, 0, ERANGE, ENOMEM, EINVAL, ENOENT, EDOM};
+	return vals[vh_below(sizeof vals / sizeof *vals)];
+}
 static void do_get(const char *ptr, int f)
 {
 	json_object *res = (json_object *)(intptr_t)-1;
-	errno = 0;
+	errno = ambient_errno();
 	int rc = f ? json_pointer_getf(root, &res, "%s", ptr) : json_pointer_get(root, ptr, &res);
 	int e = errno;
 	ev_begin("get");
@@ -150,7 +156,7 @@ static void do_set(const char *ptr, int f)
 	emit_tree();
 	value = json_object_new_int(99);
 	json_object *r = root;
-	errno = 0;
+	errno = ambient_errno();
 	int rc = f ? json_pointer_setf(&r, value, "%s", ptr) : json_pointer_set(&r, ptr, value);
 	int e = errno;
 	ev_begin("set");
@@ -274,6 +280,8 @@ static const char *advkeys[] = {"", "a", "/", "~", "~0", "~1", "0", "01", "-", "
 static int gen(int budget, int depth)
 {
 	int id = ++nspec;
+	if (id == 99)
+		id = ++nspec; /* (99 is the identity of the value that set operations place) */
 	uint32_t r = vh_below(10);
 	if (budget <= 1 || depth > 4 || r < 3 || nspec > MAXN - 30)
 	{
@@ -283,6 +291,12 @@ static int gen(int budget, int depth)
 	}
 	S[id].kind = r < 7 ? 'o' : 'a';
 	int n = 1 + (int)vh_below(5);
+	if (S[id].kind == 'a' && vh_below(6) == 0 && nspec < MAXN - 150)
+	{
+		/* an array wide enough for index tokens of two (now and then three) digits; its elements are leaves and nulls */
+		n = vh_below(6) == 0 ? 101 + (int)vh_below(3) : 11 + (int)vh_below(4);
+		budget = n;
+	}
 	int used[27] = {0};
 	S[id].nk = 0;
 	for (int i = 0; i < n && nspec < MAXN - 10; i++)
